@@ -272,3 +272,7 @@ def check(P, R, tier):
     R.assumptions = ["Vec::sort on PublicKey (derived Ord over the key bytes) is deterministic",
                      "absence of a second Make per round under all interleavings additionally uses: every L3 site strictly raises self.round first (argument, not machine-checked)"]
     rules(P, R)
+    # L6 "blocks authored AND SIGNED by that round's leader": Block::verify checks the author's signature over the block digest
+    # on every path to Ok (C04.S2)
+    from ..common import fold
+    fold(R, P, "c04", ("C04.S2",), "C09.L6", 20)
